@@ -185,13 +185,15 @@ ADDENDA = {
  'C13': ('Counts cover the elements filled (R13.8), arrays of owners are released element-wise (R13.9), live elements are not '
          're-initialised (R13.10); the info a live decoder refers to is not cleared under it (R13.11, typestate); a file-local '
          'helper may leave a freed pointer to callers that wipe the container; the set-up step that freezes the staged '
-         'settings tests the freeze flag before it allocates (R13.12).', ''),
+         'settings tests the freeze flag before it allocates (R13.12); a release function that frees only under an ownership flag is '
+         'called, by the function that allocated the object, only after the flag was set (R13.13).', ''),
  'C15': ('Fixed-extent indexing in the psychoacoustic and vorbisenc set-up code is proven by K4 with floating intervals '
          '(R15.5); every value vorbis_encode_ctl copies from the caller into a range-constrained set-up field is inside its '
          'range at the store or clamped before the return (R15.6, NaN cases listed as assumptions); a refused control request '
          'has stored nothing (R15.7); requests on an existing set-up tolerate a cleared info (R15.8); a NaN does not survive a '
          'request whose value becomes an integer bound (R15.6 nan-rejected); no alloca on the analysis path is sized by the '
-         'amount of audio submitted (R15.9); the staging calls refuse an info whose set-up was completed (R15.10).', ' + K4 interval analysis (integer and floating) of set-up code'),
+         'amount of audio submitted (R15.9); the staging calls refuse an info whose set-up was completed (R15.10); a capacity '
+         'grown under a need test is grown to at least the need (R15.11).', ' + K4 interval analysis (integer and floating) of set-up code'),
  'C16': ('Comment strings are allocated length+1 and filled exactly (R16.2); vorbis_comment_add grows both arrays alike and '
          'keeps the terminator inside the allocation (R16.5).', ''),
  'C17': ('The channel count used for interleaving is the decoded link\'s and is not stale across the packet fetch (R17.5, R17.6); '
@@ -209,7 +211,8 @@ ADDENDA = {
  'C20': ('Units of measure are checked in the block layer as well (R20.6: stream vs output samples meet only through the '
          'half-rate shift, the flag is never added to a sample count); the half-rate request is carried over when the info '
          'is discarded and rebuilt at a streaming link boundary (R20.8); ov_halfrate reports success only behind the completed '
-         'all-links loop, which its own roll-back recursion relies on (R20.9).', ' + units-of-measure tag analysis in lib/block.c + K2 must-restore rule'),
+         'all-links loop, which its own roll-back recursion relies on (R20.9); its refusal returns are reached without any decoder '
+         'dump on the path (R20.10).', ' + units-of-measure tag analysis in lib/block.c + K2 must-restore rule'),
 }
 
 NA = {
